@@ -188,9 +188,10 @@ func contract_finishSpeculativeLength(b []byte, pos int) (r []byte) {
 
 // Under Deterministic map entries are ranged in the generic key order (C05).
 //
-// @ props C05
+// @ props C05 C13
 // @ mode int
 // @ nopanic
+// @ guard-errors
 // @ callsite order.RangeEntries: imp(o.Deterministic, identical(keyOrder, order.GenericKeyOrder))
 func contract_MarshalOptions_marshalMap(o MarshalOptions, b []byte, fd protoreflect.FieldDescriptor, mapv protoreflect.Map) (r []byte, err error) {
 	modifiesAll()
@@ -298,5 +299,14 @@ func contract_UnmarshalOptions_unmarshalMap(o UnmarshalOptions, b []byte, wtyp p
 // @ callsite protoreflect.ValueOfBytes: freshSlice(arg[[]byte](0)) || len(arg[[]byte](0)) == 0
 func contract_mergeOptions_cloneBytes(o mergeOptions, v protoreflect.Value) (r protoreflect.Value) {
 	modifiesAll()
+	return
+}
+
+// marshalField dispatches to the list, map and singular encoders: trusted summary (they append).
+//
+// @ trusted
+func contract_MarshalOptions_marshalField(o MarshalOptions, b []byte, fd protoreflect.FieldDescriptor, value protoreflect.Value) (r []byte, err error) {
+	modifiesAll()
+	ensuresTrusted(imp(err == nil, len(r) >= len(b)))
 	return
 }
